@@ -328,7 +328,27 @@ def _loop_source(loop, name):
     return rec(loop.target, loop.iter)
 
 
+def check_shift(ctx):
+    R = "C07-SHIFT"
+    ctx.rule(R, "changing the velocity unit adds the same constant (n_epochs * ln of the unit ratio) to every marginal ln-likelihood; the acceptance test must therefore depend "
+                "on the likelihoods only through L - max(L): exp(L - max L) > U at each of the four rejection sites (normaliser clause shared with C02-ACC). An "
+                "un-normalised exp(L) underflows for many epochs in a small unit although the same data in km/s sample fine.")
+    from . import _rej
+    n = 0
+    for mod, name in _rej.SITES:
+        S = _rej.analyze(ctx.prog, mod, name)
+        if not S.acc or S.acc.get("form") is None:
+            ctx.undecided(R, S.fn, "acceptance predicate in %s" % name, (S.acc or {}).get("why", "unrecognised"))
+            continue
+        kind, L, red, why = _rej.normaliser(S.acc["arg"])
+        n += 1
+        ctx.check(R, S.acc_stmt, "%s: acceptance depends on ln L only through L - max(L)" % name, kind == "max",
+                  "%s: the test is not invariant under the additive constant a change of unit introduces" % why, key=name + ":shift")
+    ctx.floor(R, n, 4)
+
+
 def run(ctx):
+    check_shift(ctx)
     check_inventory(ctx)
     check_kernel_units(ctx)
     check_meanstd(ctx)
